@@ -27,6 +27,10 @@ def contents(big):
 NAMES = [('none', None), ('ascii', 'report.txt'), ('console', '_CONSOLE'), ('non-ascii', 'résumé-文件.txt'), ('max', 'n' * 251 + '.txt'), ('space', 'my file (1).tar.gz')]
 
 
+class _Early(Exception):
+    pass
+
+
 class Prop(object):
     ID = 'C20'
     LEVEL = 'model_checking'
@@ -52,6 +56,8 @@ class Prop(object):
                     if n < 2 and times != 'equal':
                         continue
                     u.append(('signed', {'order': list(order), 'times': times}))
+                    if n >= 2:
+                        u.append(('signed', {'order': list(order), 'times': times, 'export_between': True}))
         u.append(('encrypted', {}))
         for comp in (0, 1, 2, 3):
             u.append(('foreign', {'comp': comp}))
@@ -227,6 +233,14 @@ class Prop(object):
                         k, raw = S.signer_cert(SIGNERS[si])
                         t = {'equal': 0, 'increasing': j * 10, 'decreasing': -j * 10}[case['times']]
                         m |= k.sign(m, hash=hashes[si], created=K.dt(K.T0 + 5000 + t))
+                        if case.get('export_between') and j < n - 1:
+                            # the message is written out (and read by the recogniser) after every signature, then signed further
+                            r.transitions += 1
+                            pb, _rec = self._grammar(bytes(m), j + 1, COMP_ID[comp], label)
+                            if pb:
+                                probs += ['export after %d of %d signatures: %s' % (j + 1, n, x) for x in pb]
+                    if probs:
+                        raise _Early()
                     r.transitions += 1
                     blob = bytes(m)
                     probs, rec = self._grammar(blob, n, COMP_ID[comp], label)
@@ -260,13 +274,15 @@ class Prop(object):
                         if p2:
                             stage = stage or 'import'
                             probs += ['%s import: %s' % (form_name, x) for x in p2]
+                except _Early:
+                    stage = 'grammar-between'
                 except Exception as e:
                     import traceback
                     stage = stage or 'exception'
                     probs.append('raises %r %s' % (e, traceback.format_exc()[-200:]))
                 r.outcomes[stage or 'ok'] += 1
                 if probs:
-                    r.viol('signed', {'part': 'signed', 'stage': stage, 'n': n}, dict(case, only=key), label + ': ' + '; '.join(probs[:3]))
+                    r.viol('signed', {'part': 'signed', 'stage': stage, 'n': n, 'export_between': bool(case.get('export_between'))}, dict(case, only=key), label + ': ' + '; '.join(probs[:3]))
         r.dim('signers', n)
         r.samples.append(dict(case))
         return r
